@@ -63,6 +63,8 @@ def state_value(vc, i, perm=None):
 
 
 def symbol_value(vc, j, token=False):
+    if j >= 8:
+        return "s%d" % j                    # large alphabets (scale cases): one name per index
     if token:
         return SYM_TOKEN[j % len(SYM_TOKEN)]
     if vc == "binary":
